@@ -277,6 +277,14 @@ func lockedCallsScenario(name string, threads [][]callSpec, gate bool) vx.Scenar
 	body := func() {
 		g := syncx.NewLockedCalls()
 		gateCh := vsched.MakeChan[struct{}](0)
+		qLeft := 0 // the gate opens when EVERY call on key q has returned
+		for _, calls := range threads {
+			for _, c := range calls {
+				if c.key == "q" {
+					qLeft++
+				}
+			}
+		}
 		var wg vsched.WaitGroup
 		for ti, calls := range threads {
 			ti, calls := ti, calls
@@ -305,7 +313,9 @@ func lockedCallsScenario(name string, threads [][]callSpec, gate bool) vx.Scenar
 					}
 					vsched.Log("R %s %s false %v", me, id, err != nil)
 					if gate && c.key == "q" {
-						vsched.Close(gateCh)
+						if qLeft--; qLeft == 0 { // ordered by the log event above: one thread runs at a time
+							vsched.Close(gateCh)
+						}
 					}
 				}
 			})
@@ -355,6 +365,14 @@ func lockedCallsScenario(name string, threads [][]callSpec, gate bool) vx.Scenar
 		return vx.Verdict{Sig: fmt.Sprintf("cross-key-overlaps=%d", overl)}
 	}
 	return vx.Scenario{Name: name, Body: body, Check: check}
+}
+
+// bound caps the preemption bound of a (large) scenario in the quick tier.
+func bound(s vx.Scenario, p int, thorough bool) vx.Scenario {
+	if !thorough {
+		s.SetBound, s.P, s.T = true, p, 0
+	}
+	return s
 }
 
 type res struct{ id int }
@@ -467,6 +485,10 @@ func main() {
 		lockedCallsScenario("lc-2+1-kk,k", [][]callSpec{{c(k), c(k)}, {c(k)}}, false),
 		lockedCallsScenario("lc-gate-k,q", [][]callSpec{{c(k)}, {c(q)}}, true),
 		lockedCallsScenario("lc-gate-k,k,q", [][]callSpec{{c(k)}, {c(k)}, {c(q)}}, true),
+		// a running and a pending call on each of two keys: finishing one key's call must let that key's
+		// pending call run although the other key is still busy (a wake-up must not go to the wrong key only)
+		bound(lockedCallsScenario("lc-gate-k,k,q,q", [][]callSpec{{c(k)}, {c(k)}, {c(q)}, {c(q)}}, true), 2, cfg.Thorough()),
+		lockedCallsScenario("lc-gate-k,k,qq", [][]callSpec{{c(k)}, {c(k)}, {c(q), c(q)}}, true),
 		resourceManagerScenario("rm-3x1-ok", [][]string{{k}, {k}, {k}}, [][]bool{{false}, {false}, {false}}),
 		resourceManagerScenario("rm-fail-then-ok", [][]string{{k, k}, {k}, {k}}, [][]bool{{true, false}, {false}, {true}}),
 		resourceManagerScenario("rm-2keys", [][]string{{k, q}, {q, k}}, [][]bool{{false, false}, {false, false}}),
